@@ -584,13 +584,16 @@ fn index_set_string(string: &mut String, mut index: isize, value: Object) -> Res
         ));
     }
 
+    // The value may be the very string that is being changed (s[0] = s):
+    // copy it, so it is not read while (or after) the target's buffer is rewritten
+    let replacement = value.as_str().to_owned();
     string.replace_range(
         string
             .char_indices()
             .nth(index)
             .map(|(pos, ch)| (pos..pos + ch.len_utf8()))
             .unwrap(),
-        value.as_str(),
+        &replacement,
     );
 
     Ok(())
